@@ -5,5 +5,5 @@ CONSTANTS K = 2
           NodeKinds = {"b", "h", "f"}
           RootKinds = {"b", "h"}
           Fills = {0, 40}
-          Fans = {8, 256}
+          Fans = {8}
 INVARIANTS Emit
